@@ -214,6 +214,32 @@ def gen_subulp_profile(rng, names):
     return {"candidates": list(names), "ballots": [{"r": r, "w": fs(Fraction(w))} for r, w in bs]}
 
 
+def gen_partial_elim_profile(rng, names):
+    """single-seat count in which, after the first elimination(s), three candidates are level on the lowest tally T while
+    their INITIAL first-place tallies separate them only partly (T, T-d, T-d): the documented rule eliminates one of the two
+    lower-initial candidates, by a recorded random draw between exactly those two."""
+    A, B, C, D, X = rng.sample(names, 5)
+    rest = [c for c in names if c not in (A, B, C, D, X)]
+    d = rng.randint(1, 3)
+    T = rng.randint(3 * d + 1, 3 * d + 6)
+    xw = rng.randint(T + 1, 2 * T)
+
+    def tail(pool, k):
+        return [[c] for c in rng.sample(pool, min(k, len(pool)))]
+
+    bs = [([[A]] + tail([X] + rest, rng.randint(0, 1)), T), ([[B]] + tail([X] + rest, rng.randint(0, 1)), T - d), ([[C]] + tail([X] + rest, rng.randint(0, 1)), T - d),
+          ([[X]] + tail(rest, 1), xw)]
+    if rng.random() < 0.5 or not rest:
+        bs += [([[D], [B]], d), ([[D], [C]], d)]
+    else:
+        E = rest[0]
+        bs += [([[D], [B]], d), ([[E], [C]], d)]
+    rng.shuffle(bs)
+    cands = list(names)
+    rng.shuffle(cands)
+    return {"candidates": cands, "ballots": [{"r": r, "w": fs(Fraction(w))} for r, w in bs]}
+
+
 def gen_orbit_profile(rng, names):
     """Two disjoint pairs (A,B), (C,D); every ballot comes with its images under the swaps A<->B and C<->D at the same weight, so
     A,B are level on EVERY score and so are C,D; one base ballot is led by A and one by C at the same weight, which levels all
@@ -320,7 +346,13 @@ def gen_rule_case(rng, rules=ALL_RULES, *, max_c=6, tiebreaks=TIEBREAKS, tie_bia
         if set(tiebreaks) & {"borda", "first_place"}:
             cfg["tiebreak"] = rng.choice(sorted(set(tiebreaks) & {"borda", "first_place"}))
         shape = dict(shape, law="subulp", wfam="hugemix", nb=len(jp["ballots"]), ghosts=0, zero_w=0, eps=False)
-    if orbit and n >= 4 and "tiebreak" in cfg and rule != "PluralityVeto" and transfer != "random" and rng.random() < orbit:
+    if rule in ("STV", "IRV", "SequentialRCV") and n >= 5 and transfer != "random" and rng.random() < 0.03:
+        jp = gen_partial_elim_profile(rng, jp["candidates"])
+        if "m" in cfg:
+            cfg["m"] = 1
+        cfg["quota"] = "droop"
+        shape = dict(shape, law="partial-elim-tie", wfam="small", nb=len(jp["ballots"]), ghosts=0, zero_w=0, eps=False)
+    elif orbit and n >= 4 and "tiebreak" in cfg and rule != "PluralityVeto" and transfer != "random" and rng.random() < orbit:
         jp = gen_orbit_profile(rng, jp["candidates"])
         if set(tiebreaks) & {"borda", "first_place"}:
             cfg["tiebreak"] = rng.choice(sorted(set(tiebreaks) & {"borda", "first_place"}))
